@@ -370,6 +370,8 @@ def check(case, rec):
     order = len(case["access"]) + len(spec["obs"])
     fq = [_queries(t, case.get("kind") != "wild", order + k)
           for k, t in enumerate(fresh)]
+    for k, t_ in enumerate(_build_route(spec, r) for r in case["routes"]):
+        observe.check_live_iteration(t_, None, "route %d" % k)
     dense_q = [[float(x) for x in row] for row in ref.tolist()]
     for k, q_ in enumerate(fq):
         if q_["cells"] != dense_q or q_["obs_data"] != dense_q or \
